@@ -98,6 +98,30 @@ Definition create2_address (keccak256 : list N -> list N) (sender salt : N) (ini
 (* the block-hash oracle of the correspondence harness: keccak256 of the 32-byte number *)
 Definition blockhash_of (keccak256 : list N -> list N) (n : N) : N := be_decode (keccak256 (word_bytes n)).
 
+(* types.ParseDelegation: 0xef0100 ++ 20-byte address *)
+Definition parse_delegation (code : list N) : option N :=
+  match code with
+  | 239 :: 1 :: 0 :: rest => if (length rest =? 20)%nat then Some (be_decode rest) else None
+  | _ => None
+  end.
+
+(* evm.resolveCode: one level of EIP-7702 delegation since Prague *)
+Definition resolve_code (fk : fork) (w : world) (a : N) : list N :=
+  let code := get_code w a in
+  if fk_7702 fk then
+    match parse_delegation code with Some t => get_code w t | None => code end
+  else code.
+
+(* makeCallVariantGasCallEIP7702: the delegation surcharge of the CALL family and the
+   state with the delegation target warm *)
+Definition delegation_access (fk : fork) (w : world) (a : N) : N * world :=
+  if fk_7702 fk then
+    match parse_delegation (get_code w a) with
+    | Some t => if is_warm_addr w t then (warm_read_cost, w) else (cold_account_cost, warm_addr w t)
+    | None => (0, w)
+    end
+  else (0, w).
+
 (* ------------------------------------------------------------------ *)
 Section Step.
 (* evm.Run on a child frame: context, state, gas -> result *)
@@ -153,19 +177,19 @@ Definition evm_call (e : env) (k : callop) (this this_caller this_value : N) (st
         match transfer w this to value with
         | None => mk_call_result [] gas (Some (S_Halt E_InsufficientBalance)) w
         | Some w1 =>
-            run_callee (new_ctx e to this value input (get_code w1 to) static (depth + 1))
+            run_callee (new_ctx e to this value input (resolve_code (e_fork e) w1 to) static (depth + 1))
                        to w w1 input gas
         end
     | K_CALLCODE =>
         if get_balance w this <? value
         then mk_call_result [] gas (Some (S_Halt E_InsufficientBalance)) w
-        else run_callee (new_ctx e this this value input (get_code w to) static (depth + 1))
+        else run_callee (new_ctx e this this value input (resolve_code (e_fork e) w to) static (depth + 1))
                         to w w input gas
     | K_DELEGATECALL =>
-        run_callee (new_ctx e this this_caller this_value input (get_code w to) static (depth + 1))
+        run_callee (new_ctx e this this_caller this_value input (resolve_code (e_fork e) w to) static (depth + 1))
                    to w w input gas
     | K_STATICCALL =>
-        run_callee (new_ctx e to this 0 input (get_code w to) true (depth + 1))
+        run_callee (new_ctx e to this 0 input (resolve_code (e_fork e) w to) true (depth + 1))
                    to w w input gas
     end.
 
@@ -389,7 +413,12 @@ Definition exec_call (c : ctx) (f : frame) (k : callop) : frame + fresult :=
                   let intrinsic := base + newacct in
                   match charge ga intrinsic with
                   | None => oog f
-                  | Some avail =>
+                  | Some avail0 =>
+                      (* EIP-7702 (Prague): delegation resolution is paid before the 63/64 split *)
+                      let '(dcost, w1) := delegation_access (e_fork e) w1 to in
+                      match charge avail0 dcost with
+                      | None => oog f
+                      | Some avail =>
                       let cg := call_gas_cap avail greq in
                       match charge avail cg with
                       | None => oog f                         (* cannot happen: cg <= avail *)
@@ -414,6 +443,7 @@ Definition exec_call (c : ctx) (f : frame) (k : callop) : frame + fresult :=
                                   end
                               end
                           end
+                      end
                       end
                   end
               end
